@@ -291,6 +291,10 @@ macro_rules! render_ok {
         let n = e.spans().len();
         let kind = e.spanskind();
         let consistent = match kind {
+            // (errors of the header's value conversions, which only the from_str entry points
+            // reach, carry one span per offending part - namespace, constructor, argument -
+            // under the kind Error: there the documented minimum of one span is asked for)
+            SpansKind::Error if $what == "yacc-from_str" => n >= 1,
             SpansKind::Error => n == 1,
             SpansKind::DuplicationError => n >= 2,
             _ => true,
@@ -499,6 +503,7 @@ impl Prop for C12 {
                             o.fail("wrong", "C12/yacc/bad-span", format!("'{e}' span {}..{}\n{text}", sp.start(), sp.end()));
                             return o;
                         }
+                        render_ok!(o, "yacc-from_str", text, e, false);
                     }
                 }
                 Err(errs) => {
@@ -506,11 +511,13 @@ impl Prop for C12 {
                         o.fail("wrong", "C12/yacc/err-without-errors", text.clone());
                         return o;
                     }
+                    // (this entry point also converts the header's yacckind: its errors are located too)
                     for e in &errs {
                         if let Some(sp) = bad_span(e.spans()) {
                             o.fail("wrong", "C12/yacc/bad-span", format!("'{e}' span {}..{}\n{text}", sp.start(), sp.end()));
                             return o;
                         }
+                        render_ok!(o, "yacc-from_str", text, e, false);
                     }
                 }
             }
